@@ -11,6 +11,79 @@ use std::cmp::Ordering;
 
 pub struct C16;
 
+/// A registry defined outside the crate through its public traits (as a downstream user may do):
+/// assigned values on both sides of zero and a *positive* private-use range.  The label order must
+/// still be the order of the encodings.
+#[derive(Clone, Copy, Debug, PartialEq, Eq)]
+pub enum TestReg {
+    MinusTwo,
+    Zero,
+    Five,
+    Big,
+}
+impl coset::iana::EnumI64 for TestReg {
+    fn from_i64(i: i64) -> Option<Self> {
+        match i {
+            -2 => Some(TestReg::MinusTwo),
+            0 => Some(TestReg::Zero),
+            5 => Some(TestReg::Five),
+            70000 => Some(TestReg::Big),
+            _ => None,
+        }
+    }
+    fn to_i64(&self) -> i64 {
+        match self {
+            TestReg::MinusTwo => -2,
+            TestReg::Zero => 0,
+            TestReg::Five => 5,
+            TestReg::Big => 70000,
+        }
+    }
+}
+impl coset::iana::WithPrivateRange for TestReg {
+    fn is_private(i: i64) -> bool {
+        (65000..=65535).contains(&i) || i < -100000
+    }
+}
+
+fn custom_registry_pairs(ctx: &mut Ctx) {
+    use coset::CborSerializable;
+    type L = coset::RegisteredLabelWithPrivate<TestReg>;
+    type R = coset::RegisteredLabel<TestReg>;
+    let mut cands: Vec<MLabel> = [-2i64, 0, 5, 70000, 65000, 65001, 65535, -100001, -200000, i64::MIN].iter().map(|i| MLabel::Int(*i)).collect();
+    for t in ["", "a", "aa", "\u{e9}", "b"] {
+        cands.push(MLabel::Text(t.to_string()));
+    }
+    let dec: Vec<(MLabel, L)> = cands.iter().filter_map(|l| guard(|| L::from_slice(&enc(l))).ok().and_then(|r| r.ok()).map(|v| (l.clone(), v))).collect();
+    let dec2: Vec<(MLabel, R)> = cands.iter().filter_map(|l| guard(|| R::from_slice(&enc(l))).ok().and_then(|r| r.ok()).map(|v| (l.clone(), v))).collect();
+    ctx.add("decoded-values:custom registry", dec.len() as u64 + dec2.len() as u64);
+    for (la, a) in &dec {
+        for (lb, b) in &dec {
+            ctx.eval();
+            let w = want_lex(la, lb);
+            match guard(|| (a.cmp(b), a.partial_cmp(b), a == b)) {
+                Ok((o, po, eq)) => {
+                    if o != w || po != Some(o) || eq != (w == Ordering::Equal) {
+                        ctx.violation("C16/cmp-differs-from-encoded-order/RegisteredLabelWithPrivate<caller-defined registry>", format!("cmp {} but the deterministic encodings compare {}", ord_name(o), ord_name(w)), J::obj(vec![("a", J::Str(hex(&enc(la)))), ("b", J::Str(hex(&enc(lb))))]));
+                    }
+                }
+                Err(p) => ctx.violation(&format!("C16/panic/{}", p.site()), "comparison panicked".into(), J::Null),
+            }
+        }
+    }
+    for (la, a) in &dec2 {
+        for (lb, b) in &dec2 {
+            ctx.eval();
+            let w = want_lex(la, lb);
+            if let Ok((o, eq)) = guard(|| (a.cmp(b), a == b)) {
+                if o != w || eq != (w == Ordering::Equal) {
+                    ctx.violation("C16/cmp-differs-from-encoded-order/RegisteredLabel<caller-defined registry>", format!("cmp {} but the deterministic encodings compare {}", ord_name(o), ord_name(w)), J::obj(vec![("a", J::Str(hex(&enc(la)))), ("b", J::Str(hex(&enc(lb))))]));
+                }
+            }
+        }
+    }
+}
+
 fn boundary_labels() -> Vec<MLabel> {
     let mut v: Vec<MLabel> = Vec::new();
     for i in [
@@ -156,7 +229,7 @@ impl Check for C16 {
             Phase { name: "all ordered pairs of the boundary label set", cases: n, exhaustive: true },
             Phase { name: "all triples of the boundary label set (transitivity)", cases: n * n, exhaustive: true },
             Phase { name: "random pairs and triples of labels", cases: scale(if q { 600000 } else { 5000000 }, b), exhaustive: false },
-            Phase { name: "registry label types: all pairs of decoded values (registered, private-use, text)", cases: 8, exhaustive: true },
+            Phase { name: "registry label types: all pairs of decoded values (registered, private-use, text), incl. a caller-defined registry with a positive private-use range", cases: 9, exhaustive: true },
             Phase { name: "container monitor: BTreeSet order / membership and sort_by(cmp_canonical) of shuffled boundary sets", cases: scale(if q { 600 } else { 5000 }, b), exhaustive: false },
         ]
     }
@@ -189,6 +262,7 @@ impl Check for C16 {
                 check_pair(ctx, &a, &b);
                 check_triple(ctx, &a, &b, &c);
             }
+            3 if idx == 8 => custom_registry_pairs(ctx),
             3 => {
                 let ty = LABEL_TYPES[idx as usize + 1];
                 let vals = decoded_values(ty);
